@@ -24,6 +24,16 @@ c = dict(E.DEFAULTS); c.update(inst)
 behs = r["behaviours"]
 if r["violated"] and r["cex"]:
     behs=[dict(steps=r["cex"],prefix=True)]+behs
+nsh=int(os.environ.get("SHUFFLE","0"))
+if nsh:
+    import random
+    rnd=random.Random(8)
+    full=[b for b in behs if not b.get("prefix")]
+    if not full:
+        ncalls=lambda b: sum(1 for x in b["steps"] if x.get("ev")=="call")
+        top=max(ncalls(b) for b in behs); full=[b for b in behs if ncalls(b)==top]
+    pick=rnd.sample(full,min(len(full),150))
+    behs=[dict(steps=b["steps"],shuffle_seed=rnd.getrandbits(48)+1) for b in pick for _ in range(nsh)]
 cap=int(os.environ.get("CAP","3000"))
 if len(behs)>cap:
     import random
